@@ -44,6 +44,7 @@ def run_rules(mod, chk):
         generic.params_not_cross_bound(chk)
         generic.params_not_dropped(chk)
         generic.subscriptions_rearmed(chk)
+        generic.memoised_functions(chk)
     chk.repo.on_func = None
     return chk
 
